@@ -20,6 +20,9 @@ func init() {
 func runC17(c *Ctx) []Violation {
 	const warm = 64
 	o := world.GenOpts{MinRecs: 3, MaxRecs: 6, Encodings: false, NoSiblingContext: true}
+	// one world in six has a target filter that compares a field with a number: a record whose field is
+	// not a number makes the filter itself fail (on the tree as it stands that ends the transform)
+	o.NumericFilter = c.T.Chance("c17.numeric-filter", 1, 6)
 	w := genWorld(c, o)
 	c.Count("world.format."+w.Format, 1)
 	protos := append([]world.LRec{}, w.LRecs...)
@@ -30,6 +33,15 @@ func runC17(c *Ctx) []Violation {
 		p.Vals[0] = w.Shape.SkipValue
 		protos = append(protos, p)
 		c.Count("workload.has-filtered-records", 1)
+	}
+	filterFails := -1
+	if o.NumericFilter {
+		for i := range protos {
+			if !world.IsDigits(protos[i].Vals[w.Shape.IntIdx]) {
+				protos[i].Vals[w.Shape.IntIdx] = "7" // (odd numeric texts would end the stream within the first records)
+			}
+		}
+		c.Count("workload.numeric-target-filter", 1)
 	}
 	if c.T.Bool("c17.failing") {
 		p := world.LRec{Vals: append([]string{}, protos[0].Vals...), Items: protos[0].Items}
@@ -61,6 +73,17 @@ func runC17(c *Ctx) []Violation {
 		for j := 0; j < rep && len(texts) < n; j++ {
 			texts = append(texts, rendered[(k+j)%len(protos)])
 		}
+	}
+	if o.NumericFilter && c.T.Bool("c17.filter-fails") {
+		// records the filter cannot be evaluated on, well behind the warm-up: every 37th record from a drawn position on
+		p := world.LRec{Vals: append([]string{}, protos[0].Vals...), Items: protos[0].Items}
+		p.Vals[w.Shape.IntIdx] = "N/A"
+		bad := w.Render(p)
+		filterFails = 100 + c.T.Intn("c17.filter-fails.from", 400)
+		for i := filterFails; i < len(texts); i += 37 {
+			texts[i] = bad
+		}
+		c.Count("workload.has-records-the-filter-fails-on", 1)
 	}
 	c.T.End()
 	ww := w.WithRecs(texts)
